@@ -109,6 +109,28 @@ func campaignC05(p *Parser, req *Request, resp *Response) {
 			n = len(r.Events)
 		}
 		diverged := false
+		// the model and the parser must agree about matching before their stores
+		// are compared: the same blocks in the same order over the whole run, and
+		// the same overall outcome. Where they do not, the difference is about
+		// matching (another property's subject) and decides nothing here, even if
+		// a store happens to differ earlier in the run.
+		realFailed := r.ValueNil && !r.ErrNil
+		if len(m.Events) != len(r.Events) || (m.OK && realFailed) {
+			resp.stat("unclaimed_divergence", 1)
+			resp.Notes = append(resp.Notes, fmt.Sprintf("unclaimed divergence: model has %d events and ok=%v, real run %d events, value nil=%v, error nil=%v", len(m.Events), m.OK, len(r.Events), r.ValueNil, r.ErrNil))
+			continue
+		}
+		for i := 0; i < n; i++ {
+			if m.Events[i].Key() != r.Events[i].Key() {
+				resp.stat("unclaimed_divergence", 1)
+				resp.Notes = append(resp.Notes, fmt.Sprintf("unclaimed divergence at event %d: model %s, real %s", i, m.Events[i].Key(), r.Events[i].Key()))
+				diverged = true
+				break
+			}
+		}
+		if diverged {
+			continue
+		}
 		for i := 0; i < n; i++ {
 			me, re := &m.Events[i], &r.Events[i]
 			if me.Key() != re.Key() {
